@@ -7,6 +7,27 @@ import sys
 HERE = os.path.dirname(os.path.dirname(os.path.abspath(__file__)))
 
 CHECKS = {
+    "C01": dict(
+        category="exploration",
+        technique="differential property-based testing against CPython's parser: stdlib corpus + CPython-validated token/whitespace mutations + Hypothesis-driven constructive AST generator rendered in random surface styles; canonical-tree and compile() comparison",
+        text="Every text CPython accepts (corpus statement, validated mutation, generated program in a random surface style) is parsed by xonsh's context-free parser with LALR tables rebuilt from the working tree and compared with CPython's tree under a strict location-free canonical form, plus agreement of compile(); exec/eval/single modes. 40 recorded parser defects are attributed only through narrow syntactic predicates on the minimised program and avoided by the generators (counted). Absence is shown only for the explored texts.",
+        note="Trusted: CPython's ast.parse/compile as the reference; the canonical form (self-tested: 6 equal pairs, 48 single-field perturbations); input convention of xonsh's own callers (exec/single text ends with newline, eval text does not). CR newlines, form feeds and coding declarations are out of domain.",
+        design="2/C01",
+    ),
+    "C08": dict(
+        category="exploration",
+        technique="stateful model-based testing (Hypothesis RuleBasedStateMachine) of file-system/$PATH mutation histories against a reference execvp search cross-checked with dash `command -v`",
+        text="Histories of create/delete/chmod/symlink/rename/$PATH-edit/chdir operations interleaved with lookups through every view (locate_executable, SubprocSpec.build, CommandsCache.locate_binary, `in`, all_commands, real execution); after every step each view must agree with a pure-Python POSIX search that is itself cross-checked against /bin/sh. Five recorded staleness/lookup defects are tolerated only in their exact shape.",
+        note="Trusted: the reference search and dash; runs as root (x-bit semantics of uid 0); same-tick mtime collisions are produced by restoring directory mtimes because this kernel advances mtime on every change.",
+        design="2/C08",
+    ),
+    "C16": dict(
+        category="exploration",
+        technique="stateful model-based testing (Hypothesis RuleBasedStateMachine) of cd/pushd/popd/dirs histories against a reference model of the documented directory-stack builtins",
+        text="Histories of directory commands with valid, out-of-range, malformed, missing, non-directory and permission-denied targets over a tree with symlinks, issued through the real aliases and through Execer.exec; after every step $PWD/getcwd/$OLDPWD/DIRSTACK are compared with the model; failed operations must change nothing. Three recorded defects are tolerated only in their exact shape.",
+        note="Trusted: the reference model (bash manual + docstrings); ambiguous forms (dir named '-' or '+1', logical vs physical '..') accept every documented reading; permission failures are made real by dropping CAP_DAC_OVERRIDE in the worker.",
+        design="2/C16",
+    ),
     "C15": dict(
         category="exploration",
         technique="property-based testing: exhaustive small-scope enumeration + Hypothesis-generated alias tables against a reference expander; real runs of recursive string aliases under a hang bound",
